@@ -48,9 +48,11 @@ class Setup:
     of the fields the loss object carries."""
     _proto = None
 
-    def __init__(self, kind, B, k, m, wkind, on, d=1, tag="", share=None, obs_param=False):
+    def __init__(self, kind, B, k, m, wkind, on, d=1, tag="", share=None, obs_param=False, const_w=None):
+        """const_w = (w, wo): plain Python numbers given to the weights object at construction and never replaced"""
         self.kind, self.B, self.k, self.m, self.wkind, self.on, self.d = kind, B, k, m, wkind, set(on), d
         self.obs_param = obs_param
+        self.const_w = const_w
         self.din = {"ODE": 1, "statio": d, "nonstatio": 1 + d}[kind]
         eqt = {"ODE": "ODE", "statio": "statio_PDE", "nonstatio": "nonstatio_PDE"}[kind]
         self.S = 2
@@ -103,6 +105,8 @@ class Setup:
     def prepare(self):
         """construct the prototype loss with concrete stand-ins (call before tracing)"""
         ex = {i.name: np.full(tuple(i.shape), 7.0) for i in self.inputs()}
+        if self.const_w is not None:
+            ex["w"], ex["wo"] = self.const_w
         self._proto = self._build(ex)
         return self
 
@@ -114,8 +118,9 @@ class Setup:
         loss = self._proto
         lwf = [f.name for f in dataclasses.fields(loss.loss_weights)]
         vals = {"dyn_loss": a["w"]}
-        new_lw = type(loss.loss_weights)(**{f: vals.get(f, a["wo"]) for f in lwf})
-        loss = eqx.tree_at(lambda l: l.loss_weights, loss, new_lw)
+        if self.const_w is None:
+            new_lw = type(loss.loss_weights)(**{f: vals.get(f, a["wo"]) for f in lwf})
+            loss = eqx.tree_at(lambda l: l.loss_weights, loss, new_lw)
         if kind == "ODE":
             if "initial_condition" in on:
                 loss = eqx.tree_at(lambda l: l.initial_condition, loss, (a["t0"], a["u0"]))
@@ -145,6 +150,8 @@ class Setup:
             pt = [s["pts"][i]] if self.kind == "ODE" else [s["pts"][i, l] for l in range(self.din)]
             r = self.res(n, pt, {"a": [s["a"][()]]})
             w = [s["w"][cc] if self.wkind == "vec" else s["w"][()] for cc in range(self.k)]
+            if self.const_w is not None:
+                w = [c(self.const_w[0])] * self.k
             per.append(sum((w[cc] * r[cc] * r[cc] for cc in range(self.k)), P.ZERO))
         return mean(per)
 
@@ -153,11 +160,12 @@ def _as_dict(names, args):
     return dict(zip(names, args))
 
 
-def evaluate_ob(kind, B, k, m, wkind, on, d=1, via_call=False, obs_param=False):
+def evaluate_ob(kind, B, k, m, wkind, on, d=1, via_call=False, obs_param=False, const_w=None):
     on = tuple(sorted(on))
-    tag = f"[{kind},B={B},k={k},m={m},w={wkind},d={d},on={'+'.join(on) or 'none'}{',observed_param' if obs_param else ''}]"
+    tag = f"[{kind},B={B},k={k},m={m},w={wkind},d={d},on={'+'.join(on) or 'none'}{',observed_param' if obs_param else ''}"
+    tag += "]" if const_w is None else f",weights_are_python_numbers={const_w[0]!r}/{const_w[1]!r}]"
     def build():
-        S = Setup(kind, B, k, m, wkind, on, d, obs_param=obs_param).prepare()
+        S = Setup(kind, B, k, m, wkind, on, d, obs_param=obs_param, const_w=const_w).prepare()
         names = [i.name for i in S.inputs()]
         off = [t for t in _all_keys(kind) if t not in on]
         def fn(*args):
@@ -175,7 +183,7 @@ def evaluate_ob(kind, B, k, m, wkind, on, d=1, via_call=False, obs_param=False):
             out = {"total_minus_sum": P.ZERO, "off": [arr(lambda _: P.ZERO, ()) for _ in off]}
             if "dyn_loss" in on:
                 v = S.dyn_spec(s)
-                out["dyn"] = v * c(B) if wrong else v
+                out["dyn"] = (v * c(B) + (1 if (const_w is not None and const_w[0] == 0) else 0)) if wrong else v
             return out
         can = (lambda *a: spec(*a, wrong=True)) if ("dyn_loss" in on and B > 1) else None
         return dict(fn=fn, spec=spec, canary=can, inputs=S.inputs())
@@ -237,6 +245,10 @@ def obligations(tier):
         obs.append(evaluate_ob(kind, 2, 2, 1, "scalar", ("dyn_loss", "observations"), obs_param=True))
         if kind != "ODE":
             obs.append(evaluate_ob(kind, 2, 2, 1, "vec", ("dyn_loss",), d=2))
+        # weights given as plain Python numbers when the weights object is built (linearity includes the weight 0)
+        obs.append(evaluate_ob(kind, 2, 2, 1, "scalar", terms, const_w=(0, 0.5)))
+        obs.append(evaluate_ob(kind, 2, 1, 1, "scalar", ("dyn_loss",), const_w=(0.0, 0)))
+        obs.append(evaluate_ob(kind, 2, 2, 1, "scalar", terms, const_w=(3, 2.5)))
         for which in ("linear_in_weight", "permutation_invariant", "mean_of_halves"):
             for wkind in (("vec",) if tier == "quick" else ("scalar", "vec")):
                 obs.append(corollary(kind, 2 if tier == "quick" else 4, 2, wkind, which))
@@ -252,7 +264,7 @@ def obligations(tier):
     # dynamic term uses row i at point i — also when the rows are given as a flat vector
     from contracts import c12
     for kind in ("ODE", "statio", "nonstatio"):
-        for o in (c12.batched(kind, ("a", "b"), 2, flat=True), c12.batched(kind, ("a",), 2)):
+        for o in (c12.batched(kind, ("a", "b"), 2, flat=True), c12.batched(kind, ("a",), 2), c12.batched(kind, ("a", "b"), 2, int_caller=True)):
             o.name = o.name.replace("C12/", "C03/per_point_parameters/")
             obs.append(o)
     from contracts import c20
